@@ -300,4 +300,210 @@ theorem merge_stale_index_counterexample :
     (mutes envM storeM [] 4 [("a", "2")]).muted = false := by
   decide
 
+/-! ### histories without merges: `msOf` is constructed, not assumed -/
+
+theorem setSilence_ids (now : Int) (s : Store) (m : Mesh) (id : String)
+    (h : (lookup (setSilence now s m).1.st id).isSome = true) : (lookup s.st id).isSome = true ∨ id = m.sil.id := by
+  rw [setSilence_lookup] at h
+  by_cases hk : m.sil.id = id
+  · exact Or.inr hk.symm
+  · simp [hk] at h; exact Or.inl (by simp [h])
+
+theorem expireCore_ids (ret now : Int) (s : Store) (p : Mesh) (hl : lookup s.st p.sil.id = some p) (id : String)
+    (h : (lookup (expireCore ret now s p.sil).1.st id).isSome = true) : (lookup s.st id).isSome = true := by
+  by_cases hk : p.sil.id = id
+  · subst hk; simp [hl]
+  · rw [expireCore_lookup_ne ret now s p.sil id hk] at h; exact h
+
+/-- `Set` stores nothing under an id that was neither stored before nor just drawn -/
+theorem set_ids (env : Env) (ret : Int) (maxSil : Nat) (now : Int) (s : Store) (inp : SilIn)
+    (newId : String) (big : Bool) (r : SetOk) (hi : IndexInv s)
+    (h : set env ret maxSil now s inp newId big = .ok r) (id : String)
+    (hid : (lookup r.store.st id).isSome = true) : (lookup s.st id).isSome = true ∨ id = newId := by
+  unfold set at h
+  by_cases hv : (!validate env inp.sets (inp.start.getD now) inp.stop) = true
+  · simp [hv] at h
+  · by_cases hn : inp.id ≠ "" ∧ lookup s.st inp.id = none
+    · simp [hv, hn] at h
+    · simp only [hv, hn, if_false] at h
+      by_cases hu : canUpdatePrev (lookup s.st inp.id) (silOfIn inp now) now = true
+      · simp only [hu, if_true] at h
+        unfold setUpdate at h
+        by_cases hb : big = true
+        · simp [hb] at h
+        · simp only [hb] at h
+          injection h with h; subst h
+          rcases setSilence_ids now s _ id hid with h1 | h1
+          · exact Or.inl h1
+          · left
+            have : (toMesh ret (silOfIn inp now)).sil.id = inp.id := rfl
+            rw [h1, this]
+            unfold canUpdatePrev at hu
+            cases hl : lookup s.st inp.id with
+            | none => simp [hl] at hu
+            | some p => simp
+      · simp only [hu] at h
+        unfold setCreate at h
+        by_cases hlim : maxSil > 0 ∧ s.st.length + 1 > maxSil
+        · simp [hlim] at h
+        · by_cases hb : big = true
+          · simp [hlim, hb] at h
+          · simp only [hlim, hb, if_false] at h
+            injection h with h; subst h
+            simp only at hid
+            rcases setSilence_ids now _ _ id hid with h1 | h1
+            · left
+              cases hl : lookup s.st inp.id with
+              | none => rw [hl] at h1; exact h1
+              | some p =>
+                rw [hl] at h1
+                have hpid : p.sil.id = inp.id := hi.keyId inp.id p hl
+                exact expireCore_ids ret now s p (by rw [hpid]; exact hl) id h1
+            · exact Or.inr h1
+
+theorem expire_ids (ret now : Int) (s : Store) (k : String) (r : Store × List Mesh) (hi : IndexInv s)
+    (h : expire ret now s k = .ok r) (id : String) (hid : (lookup r.1.st id).isSome = true) :
+    (lookup s.st id).isSome = true := by
+  unfold expire at h
+  cases hl : lookup s.st k with
+  | none => simp [hl] at h
+  | some p =>
+    simp [hl] at h
+    subst h
+    have hpid : p.sil.id = k := hi.keyId k p hl
+    exact expireCore_ids ret now s p (by rw [hpid]; exact hl) id hid
+
+/-- the uuids drawn by the `Set`s of a history, each with the matcher sets submitted with it -/
+def drawnSets : List Op → AList String MatcherSets
+  | [] => []
+  | .set _ inp newId _ :: rest => (newId, inp.sets) :: drawnSets rest
+  | _ :: rest => drawnSets rest
+
+/-- the matcher sets of an id, read off the history -/
+def msOfOps (ops : List Op) (id : String) : MatcherSets := (lookup (drawnSets ops) id).getD []
+
+def Op.isMerge : Op → Bool
+  | .merge _ _ _ => true
+  | _ => false
+
+/-- time does not go backwards (the timing part of `Run`) -/
+def Timed : Int → List Op → Prop
+  | _, [] => True
+  | now, op :: rest => (∀ t, op.time = some t → now ≤ t) ∧ Timed ((op.time).getD now) rest
+
+theorem run_of_fresh (msOf : String → MatcherSets) (env : Env) (ret : Int) (maxSil : Nat) (rest : List Op) :
+    ∀ (D : List String) (σ : Sys) (now : Int), IndexInv σ.store →
+      (∀ id, (lookup σ.store.st id).isSome = true → id ∈ D) →
+      (∀ k ms, lookup (drawnSets rest) k = some ms → k ∉ D) → NoDupKeys (drawnSets rest) →
+      (∀ k ms, lookup (drawnSets rest) k = some ms → msOf k = ms) →
+      (∀ op ∈ rest, op.isMerge = false) → Timed now rest → Run msOf env ret maxSil σ now rest := by
+  induction rest with
+  | nil => intros; trivial
+  | cons op rest ih =>
+    intro D σ now hi hD hfr hnd hms hnm ht
+    obtain ⟨ht1, ht2⟩ := ht
+    have hnm' : ∀ o ∈ rest, o.isMerge = false := fun o ho => hnm o (List.mem_cons_of_mem _ ho)
+    cases op with
+    | set t inp newId big =>
+      have hnd' : lookup (drawnSets rest) newId = none ∧ NoDupKeys (drawnSets rest) := hnd
+      have hnew : newId ∉ D := hfr newId inp.sets (by simp [drawnSets])
+      have hfresh : lookup σ.store.st newId = none := by
+        cases hl : lookup σ.store.st newId with
+        | none => rfl
+        | some m => exact absurd (hD newId (by simp [hl])) hnew
+      refine ⟨⟨(hms newId inp.sets (by simp [drawnSets])).symm, hfresh⟩, ht1, ?_⟩
+      apply ih (newId :: D) _ _ _ _ _ hnd'.2 _ hnm' ht2
+      · simp only [Sys.step]
+        cases hs : set env ret maxSil t σ.store inp newId big with
+        | error _ => exact hi
+        | ok r => exact indexInv_set env ret maxSil t σ.store inp newId big r hi hs
+      · intro id hid
+        simp only [Sys.step] at hid
+        cases hs : set env ret maxSil t σ.store inp newId big with
+        | error _ => rw [hs] at hid; exact List.mem_cons_of_mem _ (hD id hid)
+        | ok r =>
+          rw [hs] at hid
+          rcases set_ids env ret maxSil t σ.store inp newId big r hi hs id hid with h | h
+          · exact List.mem_cons_of_mem _ (hD id h)
+          · rw [h]; exact List.mem_cons_self
+      · intro k ms hk hmem
+        rcases List.mem_cons.mp hmem with h | h
+        · rw [h, hnd'.1] at hk; cases hk
+        · refine hfr k ms ?_ h
+          simp only [drawnSets, lookup_cons]
+          by_cases hkk : newId = k
+          · rw [← hkk, hnd'.1] at hk; cases hk
+          · simp [hkk, hk]
+      · intro k ms hk
+        apply hms k ms
+        simp only [drawnSets, lookup_cons]
+        by_cases hkk : newId = k
+        · rw [← hkk, hnd'.1] at hk; cases hk
+        · simp [hkk, hk]
+    | expire t id0 =>
+      refine ⟨trivial, ht1, ?_⟩
+      apply ih D _ _ _ _ hfr hnd hms hnm' ht2
+      · simp only [Sys.step]
+        cases hs : expire ret t σ.store id0 with
+        | error _ => exact hi
+        | ok r => exact indexInv_expire ret t σ.store id0 r hi hs
+      · intro id hid
+        simp only [Sys.step] at hid
+        cases hs : expire ret t σ.store id0 with
+        | error _ => rw [hs] at hid; exact hD id hid
+        | ok r => rw [hs] at hid; exact hD id (expire_ids ret t σ.store id0 r hi hs id hid)
+    | merge t ov b => exact absurd (hnm _ List.mem_cons_self) (by simp [Op.isMerge])
+    | gc t =>
+      refine ⟨trivial, ht1, ?_⟩
+      apply ih D _ _ (indexInv_gc t σ.store hi) _ hfr hnd hms hnm' ht2
+      intro id hid
+      simp only [Sys.step] at hid
+      rw [lookup_gc t σ.store hi] at hid
+      apply hD id
+      cases hl : lookup σ.store.st id with
+      | none => simp [hl] at hid
+      | some m => simp
+    | postGC fps => exact ⟨trivial, ht1, ih D _ _ hi hD hfr hnd hms hnm' ht2⟩
+    | reload =>
+      refine ⟨trivial, ht1, ?_⟩
+      apply ih D _ _ (indexInv_reload σ.store) _ hfr hnd hms hnm' ht2
+      intro id hid
+      simp only [Sys.step] at hid
+      rw [lookup_reload σ.store hi] at hid
+      exact hD id hid
+    | mutes t ls => exact ⟨trivial, ht1, ih D _ _ hi hD hfr hnd hms hnm' ht2⟩
+
+/-- **For a history without merges the side conditions of `Run` are not assumptions**: with
+    `msOf` read off the history itself, `Run` holds as soon as the uuids drawn by its `Set`s are
+    pairwise distinct and time does not go backwards. -/
+theorem api_run (env : Env) (ret : Int) (maxSil : Nat) (ops : List Op) (t0 : Int)
+    (hnm : ∀ op ∈ ops, op.isMerge = false) (hnd : NoDupKeys (drawnSets ops)) (ht : Timed t0 ops) :
+    Run (msOfOps ops) env ret maxSil {} t0 ops := by
+  apply run_of_fresh (msOfOps ops) env ret maxSil ops [] {} t0 indexInv_empty _ _ hnd _ hnm ht
+  · intro id h; simp at h
+  · intro k ms _ h; simp at h
+  · intro k ms hk; unfold msOfOps; rw [hk]; rfl
+
+/-- **`mutes_eq_bruteforce` for API-only histories, with no assumption on matchers.**  After any
+    history of Set (create / any edit) / Expire / GC / alert GC / reload / Mutes whose drawn uuids
+    are pairwise distinct, `Mutes` reports muted iff some stored silence is active and its
+    *stored* matchers match, and `silencedBy` is exactly the set of those silences. -/
+theorem mutes_eq_bruteforce_api (env : Env) (ret : Int) (maxSil : Nat) (ops : List Op) (t0 : Int)
+    (hnm : ∀ op ∈ ops, op.isMerge = false) (hnd : NoDupKeys (drawnSets ops)) (ht : Timed t0 ops)
+    (now : Int) (hnow : lastTime t0 ops ≤ now) (ls : LabelSet) :
+    let σ := ops.foldl (Sys.step true env ret maxSil) {}
+    let r := mutes env σ.store σ.cache now ls
+    (r.muted = true ↔ ∃ id, activeMatching env σ.store now ls id = true) ∧
+    (∀ id, id ∈ r.silencedBy ↔ activeMatching env σ.store now ls id = true) :=
+  mutes_eq_bruteforce (msOfOps ops) env ret maxSil ops t0 (api_run env ret maxSil ops t0 hnm hnd ht) now hnow ls
+
+/-- non-vacuity: a real history satisfies the hypotheses of `mutes_eq_bruteforce_api` (an edit that
+    flips an operator included: it is stored under the second uuid) -/
+example : (∀ op ∈ [Op.set 0 inM "u" false, .mutes 1 [("a", "1")], .set 2 { inM with id := "u", sets := [[⟨.neq, "a", "1"⟩, ⟨.eq, "b", "x"⟩]] } "v" false, .gc 3],
+      op.isMerge = false) ∧
+    NoDupKeys (drawnSets [Op.set 0 inM "u" false, .mutes 1 [("a", "1")], .set 2 { inM with id := "u", sets := [[⟨.neq, "a", "1"⟩, ⟨.eq, "b", "x"⟩]] } "v" false, .gc 3]) ∧
+    Timed 0 [Op.set 0 inM "u" false, .mutes 1 [("a", "1")], .set 2 { inM with id := "u", sets := [[⟨.neq, "a", "1"⟩, ⟨.eq, "b", "x"⟩]] } "v" false, .gc 3] := by
+  refine ⟨by decide, ⟨by decide, by decide, trivial⟩, ?_⟩
+  refine ⟨?_, ?_, ?_, ?_, trivial⟩ <;> intro t h <;> simp [Op.time] at h ⊢ <;> omega
+
 end AM.Silence
